@@ -1,7 +1,7 @@
 (* Properties/C14.v — TCP responses are framed by their length prefix. *)
 From Coq Require Import ZArith.
-From RsdnsModel Require Import Base Client.
-From RsdnsModel.Proofs Require Import ClientProofs.
+From RsdnsModel Require Import Base Client Timed.
+From RsdnsModel.Proofs Require Import ClientProofs TimedProofs TimedGeneral.
 Open Scope N_scope.
 (* however the peer segments the stream, the outcome is the same *)
 Theorem C14_segmentation_independent : forall std segs segs' buf_len,
@@ -19,3 +19,14 @@ Theorem C14_framing : forall std segs buf_len,
   | _ => False
   end.
 Proof. exact tcp_exchange_spec. Qed.
+
+(* OVER TIME, IN EVERY WORLD (Timed.v: the peer's reply becomes readable byte by byte at arbitrary
+   instants, the peer may stall after any byte or close early, timers may be late): a result that
+   came over TCP — for each of the four clients, under every strategy — is framed by the length
+   prefix: the peer's stream starts with two octets announcing n, n is at most the caller's buffer
+   length, and the result is exactly the n octets behind them, whatever follows; a stream that ends
+   or stalls before that never yields Ok *)
+Theorem C14_framing_over_time : forall std smol q lifetime qt jit proc buf strategy arrs srv sends ev body t,
+  client_query_timed std smol q lifetime qt jit proc buf strategy arrs srv = (sends, ev, Ok body, t) ->
+  In EvTcpExchange ev -> framed buf (map snd (tp_bytes srv)) body.
+Proof. exact framing_over_time. Qed.
